@@ -156,6 +156,35 @@ Theorem C15_order_independence_refuted_incomparable_uppers :
 Proof. split; [apply perm_refuted_incomparable|split; apply perm_refuted_incomparable]. Qed.
 Print Assumptions C15_order_independence_refuted_incomparable_uppers.
 
+(* one call with callbacks: parameters annotated T receive `args`, parameters annotated
+   Callable[[T], ..] receive callbacks whose parameter types are `cbs` (upper bounds, via
+   TypeVarValue.can_be_assigned); T is unbounded or has a declared bound.  Under the combined
+   guard — the callback parameter types and the declared bound are pairwise comparable and none
+   is Any — the value chosen accepts every argument, is accepted by every callback's parameter
+   type and by the declared bound *)
+Theorem C15_callbacks_solution_sound_partial : forall (V : Type) (O : ops V), acc_laws O ->
+  forall limit d args cbs v,
+  (forall cs, d <> Constrained cs) ->
+  uppers_ok O (declared_upper d ++ cbs) = true ->
+  callbacks_solution O limit d args cbs = Sol v ->
+  (forall a, In a args -> acc O v a = true) /\
+  (forall p, In p cbs -> acc O p v = true) /\
+  (forall b, d = Bounded b -> acc O b v = true).
+Proof. exact @callbacks_solution_sound_partial. Qed.
+Print Assumptions C15_callbacks_solution_sound_partial.
+
+(* the guard is needed (two incomparable callbacks: f(1, g_int, g_str) solves T := Literal[1], which
+   str does not accept) and inhabited (bound float, callbacks taking float and object) *)
+Example C15_callbacks_guard_needed_and_inhabited :
+  callbacks_solution atom_ops rrs_limit Unbounded [SU [A_lit1]] [SU [A_int]; SU [A_str]] = Sol (SU [A_lit1]) /\
+  acc atom_ops (SU [A_str]) (SU [A_lit1]) = false /\
+  uppers_ok atom_ops [SU [A_int]; SU [A_str]] = false /\
+  uppers_ok atom_ops (declared_upper (Bounded (SU [A_float])) ++ [SU [A_float]; SU [A_object]]) = true /\
+  callbacks_solution atom_ops rrs_limit (Bounded (SU [A_float])) [SU [A_lit1]; SU [A_litTrue]] [SU [A_float]; SU [A_object]]
+    = Sol (SU [A_lit1; A_litTrue]).
+Proof. vm_compute. repeat split. Qed.
+Print Assumptions C15_callbacks_guard_needed_and_inhabited.
+
 (* OrBound — what intersect_bounds_maps produces when several alternatives of a union
    annotation accept an argument with different bounds — is ignored by solve: every theorem
    above holds for the bounds with the OrBounds removed, and a type variable that only
